@@ -44,6 +44,9 @@ type Fault struct {
 	At2     int         `json:"at2,omitempty"`     // pair: second offset
 	Delta   int         `json:"delta,omitempty"`   // pair: +delta at At, -delta at At2
 	Set     map[int]int `json:"set,omitempty"`     // set: offset -> new byte value (targeted multi-byte change)
+	// edit: Set as above, plus bytes inserted in front of an offset and offsets deleted (length-changing, sum-neutral edits)
+	InsAt map[int][]int `json:"insat,omitempty"`
+	DelAt map[int]bool  `json:"delat,omitempty"`
 }
 
 // TmpBase is where directory mailboxes are created.
@@ -283,6 +286,18 @@ func makeAlter(f *Fault) func(int, byte) []byte {
 			if v, ok := f.Set[off]; ok {
 				return []byte{byte(v)}
 			}
+		case "edit":
+			var out []byte
+			for _, v := range f.InsAt[off] {
+				out = append(out, byte(v))
+			}
+			if f.DelAt[off] {
+				return out
+			}
+			if v, ok := f.Set[off]; ok {
+				return append(out, byte(v))
+			}
+			return append(out, b)
 		case "pair":
 			if off == f.At {
 				return []byte{b + byte(f.Delta)}
